@@ -3,7 +3,7 @@
 One case = one REAL learner configuration x one step alphabet.  A step of a history is
 (action set, reward, learn mode): `predict(context, actions)`, for the deterministic-policy learners `score` of every
 offered action, then `learn` of either the predicted action with its own probability ('own') or of the next offered
-action with a logged probability (.5, for Corral also .01 = an extreme importance weight).  Every history up to the depth
+action with a logged probability (.5, for Corral also .01 and, over three base learners, .0001 = extreme importance weights).  Every history up to the depth
 bound is explored breadth first on fresh learners (a state is reached by replaying its history from scratch); two
 histories are merged only when the COMPLETE canonical state of the learner is equal: every attribute reachable from the
 learner object (plain dicts/lists/floats by exact repr, wrapped base learners, SafeLearner bookkeeping) and the position
@@ -19,7 +19,7 @@ of every CobaRandom stream (read from the generator frame).  The oracle is evalu
   learn      never raises and returns within the step horizon (CPU time); the next predict must still work (the leaves of
              the search are probed with one more predict)
 """
-import math, signal, types, traceback, os
+import math, signal, types, traceback
 from collections import defaultdict, deque
 
 from vf.core import Check, HarnessError, case_hash
@@ -55,7 +55,7 @@ SUBST = {'d2': 'j2', 'p2': 'k2', 's1': 'j1'}
 SET_SIZE = {'i2': 2, 'i3': 3, 's1': 1, 'd2': 2, 'p2': 2}
 ALL_SETS = ['i2', 'i3', 's1', 'd2', 'p2']
 REWARDS = [0, 0.5, 1]
-LOG_PROB = {'log': 0.5, 'tiny': 0.01}
+LOG_PROB = {'log': 0.5, 'tiny': 0.01, 'micro': 0.0001}
 
 STEP_CPU_HORIZON = 2.0          # seconds of CPU time one predict+score+learn step may take (normal: < 1 ms)
 
@@ -124,6 +124,17 @@ def learner_configs(tier):
                 for s in seeds:
                     for bases in base_sets(s):
                         out.append({'l': 'Corral', 'bases': bases, 'eta': eta, 'T': T, 'mode': mode, 'seed': s})
+    return out
+
+
+def extreme_configs():
+    """Corral over three base learners, explored with the additional logged probability 1e-4 (plan X)."""
+    out = []
+    for mode in ('importance', 'off-policy'):
+        for eta in (1, 10):
+            for T in ('inf', 4):
+                out.append({'l': 'Corral', 'bases': [{'l': 'Eps', 'eps': 0.1, 'seed': 1}, {'l': 'UCB', 'seed': 1}, {'l': 'Random', 'seed': 1}],
+                            'eta': eta, 'T': T, 'mode': mode, 'seed': 1})
     return out
 
 
@@ -361,19 +372,21 @@ class C16(Check):
     ENGINE = 'HIST'
     RULE = ('cases = (learner configuration, step alphabet, depth): Random, Fixed (6 pmfs), BanditEpsilon (eps 0, .1, 1), BanditUCB, '
             'Misguided(BanditEpsilon|BanditUCB, reward flipped / shifted below 0), Corral (base sets [Eps], [Fixed,Random], [Eps,UCB] x eta '
-            '{.075,1} x T {inf,4} x {importance, off-policy}), seeds {1,2}; step = (action set in {[1,2],[1,2,3],["a"],dense pair,sparse '
+            '{.075,1,10} x T {inf,4} x {importance, off-policy}), seeds {1,2}; step = (action set in {[1,2],[1,2,3],["a"],dense pair,sparse '
             'pair}, reward in {0,.5,1}, learn mode in {own prediction, next action logged with prob .5, (Corral) next action logged with '
             'prob .01}); every history up to the depth is explored breadth first on the real learner (replayed from scratch per '
             'transition), merging histories only on equal complete canonical learner state incl. all rng positions. quick: one fixed '
             'action set depth 4 (Corral seed 1 only), changing action sets with rewards {0,1} depth 3 (Corral depth 2), seed 1. thorough: '
             'fixed action set depth 6 (Corral depth 5, and depth 6 with rewards {0,1}); changing action sets depth 3 with the full alphabet '
             'and depth 4 with rewards {0,1} for seed 1 (Corral: depth 3 with rewards {0,1}, depth 4 over 3 action sets x rewards {0,1} x '
-            '{own, prob .01} for seed 1). A distinct state is non-trivial when the step reaching it changed the learner state apart '
-            'from its rng positions (the policy or its statistics moved)')
+            '{own, prob .01} for seed 1). Both tiers: Corral over [Eps,UCB,Random] x eta {1,10} with the extra logged probability .0001 on '
+            'a fixed action set (quick depth 4 on [1,2]; thorough depth 4 full alphabet and depth 6 with rewards {0,.5} on [1,2] and '
+            '[1,2,3]). A distinct state is non-trivial when the step reaching it changed the learner state apart from its rng '
+            'positions (the policy or its statistics moved)')
     ASSUMPTIONS = [
         'contexts are tied to the action set (None, tuple, str, list, dict): the learners are context-free',
         'a FixedLearner (alone or as a Corral base) is only offered action sets of the length of its pmf (anything else is a caller error)',
-        'the logged action of the non-own learn modes is the offered action after the predicted one (cyclic); its logged probability is .5 or (Corral only, where it matters) .01',
+        'the logged action of the non-own learn modes is the offered action after the predicted one (cyclic); its logged probability is .5 or (Corral only, where it matters) .01, and .0001 in the 3-base Corral cases',
         'rewards are 0, .5, 1; Misguided shifts them to [0,1] (flip) or to {-1,0,1} for BanditEpsilon only; Corral is never fed rewards outside [0,1]',
         'Corral.score is not constrained (each call re-samples its base learners; the statement constrains score for the deterministic-policy learners only)',
         'for Corral "the probability with which its policy selects the action" is taken as its own pmf value given the base proposals (sum of p_bar over the proposing base learners), not the marginal over base draws',
@@ -387,8 +400,8 @@ class C16(Check):
                   'rewards {0,1}; Corral 2 / 3-4) steps over changing action sets is executed on the real learner for every listed configuration; '
                   'predict/score/learn outputs and Corral weights are checked on every transition, so the shortest violating history below '
                   'the bound is found with certainty.')
-    LEVEL_NOTE = 'small-scope hypothesis: depth <=6, rewards {0,.5,1}, 5 action sets, logged probabilities {.5,.01}, seeds {1,2}; float results compared with 1e-9 (Corral weights 1e-4)'
-    MIN_NONTRIVIAL = {'quick': 2000, 'thorough': 20000}
+    LEVEL_NOTE = 'small-scope hypothesis: depth <=6, rewards {0,.5,1}, 5 action sets, logged probabilities {.5,.01,.0001}, eta <= 10, <= 3 base learners, seeds {1,2}; float results compared with 1e-9 (Corral weights 1e-4)'
+    MIN_NONTRIVIAL = {'quick': 50000, 'thorough': 500000}
     CASE_TIMEOUT = 1500
     TIMEOUT_IS_VIOLATION = False       # own per-step CPU horizon (StepTimeout) classifies non-termination
 
@@ -399,8 +412,10 @@ class C16(Check):
     def cases(self, tier):
         """Plans (each a list of cases, cheap learners first inside a plan):
         quick     F  every configuration (Corral: seed 1) x each action set alone, full step alphabet, depth 4
+                  X  Corral over 3 base learners (eta {1,10}), [1,2], rewards {0,.5} x {own, logged .01, logged .0001}, depth 4
                   C  seed 1 x all its action sets, rewards {0,1}: others depth 3 (20 steps), Corral depth 2 (30 steps)
         thorough  F  others depth 6; Corral depth 5, and depth 6 with rewards {0,1}
+                  X  [1,2] and [1,2,3]: full rewards x {own, .5, .01, .0001} depth 4; rewards {0,.5} x {own, .01, .0001} depth 6
                   C  others: depth 3 full alphabet (30 steps), seed 1 depth 4 with rewards {0,1} (20 steps);
                      Corral: depth 3 with rewards {0,1} (30 steps), seed 1 depth 4 over 3 action sets x rewards {0,1} x {own, tiny}
         Every quick case is contained in a thorough case."""
@@ -427,6 +442,14 @@ class C16(Check):
             for d in cfgs:
                 if is_corral(d):
                     for s in sets_of(d): yield case(d, [s], R01, modes_of(d), 6)
+        # -- X: extreme importance weights (Corral over 3 base learners, logged probabilities .01 and .0001)
+        for d in extreme_configs():
+            if quick:
+                yield case(d, ['i2'], [0, 0.5], ['own', 'tiny', 'micro'], 4)
+            else:
+                for s in ('i2', 'i3'):
+                    yield case(d, [s], REWARDS, ['own', 'log', 'tiny', 'micro'], 4)
+                    yield case(d, [s], [0, 0.5], ['own', 'tiny', 'micro'], 6)
         # -- C: the action set may change between rounds
         for d in cfgs:
             sets = sets_of(d)
